@@ -22,6 +22,10 @@ CLAIMS = {
     'C05': dict(tech='well-formedness predicate (Obs.tla WellFormedMismatches) evaluated by TLC on the raw, un-abstracted ranges of every recorded list result',
                 text='Uniqueness of (src,dst), no self / ip-ip / empty entries, IP peers form a partition of 0.0.0.0-255.255.255.255 into single ranges, canonical port ranges, all-connections flag <=> three full ranges: '
                      'checked by TLC on every list observation of NetworkPolicy and admin-policy worlds.', ref='6/C05'),
+    'C11': dict(tech='TLA+ register machine over connection-set denotations (ConnSetModel.tla); TLC random walks + exhaustive short operation sequences (ConnSet.tla) replayed on real common.ConnectionSet objects through the verif shim; every step validated by TLC (ConnSetTrace.tla)',
+                text='Every step of every explored operation sequence (Make/AddConnection/Union/Intersection/Subtract/Copy on 2-3 registers) must be the set-algebra step on denotations: updated register exact, other registers unchanged, no shared pointers, '
+                     'IsEmpty/IsAllConnections/Contains/String/Equal/ContainedIn consistent with denotations, ranges canonical. All sequences of 3 (quick) / 4 (thorough) operations over a 26-operation catalogue are enumerated; longer random walks and seeded sequences over 9 port chunks are sampled.', ref='6/C11',
+                note='Trusted: TLC, Json module, ConnSetModel.tla (named ports as atoms; a name is covered by a set holding it or by a full range; name part of Intersection, and completeness of Equal/ContainedIn/all-recognition in presence of excluded-named-port bookkeeping, left unspecified). Hook: pkg/netpol/verifshim (type aliases only).'),
     'C14': dict(tech='edge laws (Laws.tla) attached to Cluster.tla actions: TLC checks them on the reference (LawsCheck) and ReplayTrace asserts them on the two real reports of every edge',
                 text='Additivity, locality and re-spelling invariance asserted oracle-free on pairs of real reports for every AddRule/AddPolicy/Respell*/Split* edge of TLC-generated behaviours; the laws themselves are TLC-checked consequences of the reference.', ref='6/C14'),
     'C15': dict(tech='TLA+ model of the engine as current objects (EngineModel.tla) + history generator (Engine.tla: TLC random walks and exhaustive short histories) replayed on a real eval.PolicyEngine; recorded histories validated by TLC (EngineTrace.tla) against the model and against a fresh engine',
